@@ -35,7 +35,7 @@ MC_Targets3 == {"g1", "g7", "p1"}
 MC_Targets4 == {"g1", "g7", "p1", "p2"}
 MC_AllPeers2 == MC_GenPeers \cup MC_Cand2
 ActsAll == {"Register", "SetMax", "Authorize", "UnAuthorize", "Withdraw", "Quit", "Black", "White", "Commit",
-            "AddInit", "ReduceInit", "SetCost", "Fee", "WithdrawFee", "TransferPenalty", "SetGas", "SetDappFee"}
+            "AddInit", "ReduceInit", "SetCost", "Fee", "WithdrawFee", "TransferPenalty", "SetGas", "SetParam2", "SetParam"}
 ActsStake == ActsAll \ {"SetCost", "Fee", "WithdrawFee"}
 
 \* lossless sparse form of the state for the edge export (defaults omitted)
@@ -49,7 +49,8 @@ XState == [pool |-> Sparse(pool), prev |-> Sparse(prev),
            attr |-> {<<p, attr[p].t, attr[p].t1, attr[p].t2, attr[p].s, attr[p].s1, attr[p].s2, attr[p].max>> :
                        p \in {q \in Peers : attr[q] # DefAttr}},
            promise |-> NZ([p \in Peers |-> promise[p] + 1], Peers), black |-> black,
-           dappFee |-> dappFee, hasDapp |-> hasDapp]
+           dappFee |-> dappFee, hasDapp |-> hasDapp,
+           splitNum |-> splitNum, pA |-> pA, pB |-> pB, candNum |-> candNum]
 XEdge == PrintT(<<"EDGE", ToJson([from |-> XState, act |-> act', to |-> XState'])>>)
 XInitOut == (TLCGet("level") = 1) => PrintT(<<"INIT", ToJson(XState)>>)
 
